@@ -153,10 +153,15 @@ def gen_seq(tp, tier):
                 steps.append(['nest', i + 1 + tp.draw(n - i - 1)])
             elif r < 23 and i > 0:
                 # on the routine that (directly or not) is running this one
-                steps.append(['anc', tp.choice(['pause', 'stop', 'reset']),
+                # (next(): resuming a routine that is running - itself or
+                # the one that is running it - is refused like the others:
+                # there is no caller's thread and time to restore otherwise)
+                steps.append(['anc', tp.choice(['pause', 'stop', 'reset',
+                                                'next']),
                               tp.draw(3)])
             else:
-                steps.append(['self', tp.choice(['pause', 'stop', 'reset'])])
+                steps.append(['self', tp.choice(['pause', 'stop', 'reset',
+                                                 'next'])])
         routines.append({'gen': gen, 'inval': bool(tp.draw(2)),
                          'steps': steps})
     ops = []
